@@ -443,6 +443,10 @@ func (s *levelsController) runCompactor(id int, lc *z.Closer) {
 	defer lc.Done()
 
 	randomDelay := time.NewTimer(time.Duration(rand.Int31n(1000)) * time.Millisecond)
+	if _, sim := vhook.Now(); vhook.On && sim {
+		// Under simulation the start delay is fixed (id milliseconds) instead of random.
+		randomDelay.Reset(time.Duration(id+1) * time.Millisecond)
+	}
 	select {
 	case <-randomDelay.C:
 	case <-lc.HasBeenClosed():
@@ -518,9 +522,19 @@ func (s *levelsController) runCompactor(id int, lc *z.Closer) {
 	ticker := time.NewTicker(50 * time.Millisecond)
 	defer ticker.Stop()
 	for {
+		if vhook.On {
+			// Under simulation a closed closer deterministically wins over a
+			// pending tick (the runtime would pick one of the two at random).
+			select {
+			case <-lc.HasBeenClosed():
+				return
+			default:
+			}
+		}
 		select {
 		// Can add a done channel or other stuff.
 		case <-ticker.C:
+			vhook.PointID("compactor.tick", uint64(id+1))
 			count++
 			// Each ticker is 50ms so 50*200=10seconds.
 			if s.kv.opt.LmaxCompaction && id == 2 && count >= 200 {
@@ -660,6 +674,7 @@ func (s *levelsController) subcompact(it y.Iterator, kr keyRange, cd compactDef,
 	// never discard any versions starting from above this timestamp, because
 	// that would affect the snapshot view guarantee provided by transactions.
 	discardTs := s.kv.orc.discardAtOrBelow()
+	vhook.Event("compact.discardTs", discardTs, uint64(cd.thisLevel.level)<<8|uint64(cd.nextLevel.level))
 
 	// While a vlog GC rewrite is in flight, do not discard any version newer than
 	// the rewrite's start (gcDiscardTs is the DB's max committed version captured
@@ -872,6 +887,7 @@ func (s *levelsController) subcompact(it y.Iterator, kr keyRange, cd compactDef,
 			var err error
 			defer inflightBuilders.Done(err)
 			defer builder.Close()
+			vhook.PointID("builder.start", fileID)
 
 			var tbl *table.Table
 			if s.kv.opt.InMemory {
@@ -946,6 +962,9 @@ func (s *levelsController) compactBuildTables(
 		}
 		go func(kr keyRange) {
 			defer inflightBuilders.Done(nil)
+			if vhook.On {
+				vhook.Point("subcompact.start:" + string(kr.left))
+			}
 			it := table.NewMergeIterator(newIterator(), false)
 			defer it.Close()
 			s.subcompact(it, kr, cd, inflightBuilders, res)
@@ -1456,6 +1475,7 @@ func (s *levelsController) runCompactDef(id, l int, cd compactDef) (err error) {
 	if err != nil {
 		return err
 	}
+	vhook.Point("compactor.built")
 	defer func() {
 		// Only assign to err, if it's not already nil.
 		if decErr := decr(); err == nil {
@@ -1468,6 +1488,7 @@ func (s *levelsController) runCompactDef(id, l int, cd compactDef) (err error) {
 	if err := s.kv.manifest.addChanges(changeSet.Changes, s.kv.opt); err != nil {
 		return err
 	}
+	vhook.Point("compactor.manifest")
 
 	getSizes := func(tables []*table.Table) int64 {
 		size := int64(0)
@@ -1490,9 +1511,12 @@ func (s *levelsController) runCompactDef(id, l int, cd compactDef) (err error) {
 	if err := nextLevel.replaceTables(cd.bot, newTables); err != nil {
 		return err
 	}
+	vhook.Point("compactor.replaced")
 	if err := thisLevel.deleteTables(cd.top); err != nil {
 		return err
 	}
+	vhook.Event("compact.done", uint64(thisLevel.level)<<8|uint64(nextLevel.level), uint64(len(cd.top))<<32|uint64(len(cd.bot))<<16|uint64(len(newTables)))
+	vhook.Point("compactor.deleted")
 
 	// Note: For level 0, while doCompact is running, it is possible that new tables are added.
 	// However, the tables are added only to the end, so it is ok to just delete the first table.
@@ -1568,6 +1592,8 @@ func (s *levelsController) doCompact(id int, p compactionPriority) error {
 		}
 	}
 	defer s.cstatus.delete(cd) // Remove the ranges from compaction status.
+	vhook.Event("compact.filled", uint64(cd.thisLevel.level)<<8|uint64(cd.nextLevel.level), uint64(len(cd.top))<<16|uint64(len(cd.bot)))
+	vhook.Point("compactor.filled")
 
 	span.SetAttributes(attribute.String("Compaction", fmt.Sprintf("%+v", cd)))
 	if err := s.runCompactDef(id, l, cd); err != nil {
@@ -1599,12 +1625,15 @@ func (s *levelsController) addLevel0Table(t *table.Table) error {
 			return err
 		}
 	}
+	vhook.Point("flusher.manifest")
 
 	for !s.levels[0].tryAddLevel0Table(t) {
 		// Before we uninstall, we need to make sure that level 0 is healthy.
 		timeStart := time.Now()
 		for s.levels[0].numTables() >= s.kv.opt.NumLevelZeroTablesStall {
 			time.Sleep(10 * time.Millisecond)
+			vhook.Event("l0.stall", 0, 0)
+			vhook.Point("flusher.stallPoll")
 		}
 		dur := time.Since(timeStart)
 		if dur > time.Second {
